@@ -205,11 +205,18 @@ func WithTxReadClosers(ctx context.Context, db Database, opts *sql.TxOptions, fn
 	}
 
 	for i := range readers {
+		// Each reader counts down at most once: io.Closer permits repeated
+		// Close calls, and a second Close of one reader must not release the
+		// transaction while other readers are still open.
+		var closeOnce sync.Once
 		readers[i] = ioutils.NewReadCloserWithCloseHook(readers[i], func() error {
-			if atomic.AddInt64(&remaining, -1) == 0 {
-				return tx.Rollback(ctx)
-			}
-			return nil
+			var err error
+			closeOnce.Do(func() {
+				if atomic.AddInt64(&remaining, -1) == 0 {
+					err = tx.Rollback(ctx)
+				}
+			})
+			return err
 		})
 	}
 	return readers, nil
